@@ -2,6 +2,7 @@ package main
 
 import (
 	"fmt"
+	"go/token"
 	"strings"
 
 	"golang.org/x/tools/go/ssa"
@@ -257,33 +258,135 @@ func c10EnsureCapacity(r *Report, p *Prog, arch string) {
 	_ = strings.Join
 }
 
-// c10PortableOverlap: in the portable kernels every load from x precedes the first store to y (straight-line code).
+// c10PortableOverlap: in the portable kernels no read of the source block x can follow a write to the destination block y
+// on any path (so dst == src is safe). A forward may-analysis over the control-flow graph: the state is "some byte of y may
+// have been written"; reads of x are encoding/binary loads, direct loads and copies whose operand is rooted at x, writes of y
+// likewise; helpers that receive (a slice of) x or y are analysed in the same way with their parameters in those roles.
 func c10PortableOverlap(r *Report, p *Prog) {
 	for _, n := range []string{"sm4.cryptoBlock", "sm4.cryptoBlockX2"} {
 		fn := p.MustFunc(r, n)
 		if fn == nil {
 			continue
 		}
-		x, y := fn.Params[0], fn.Params[1]
-		firstStore := -1
-		late := ""
-		idx := 0
-		for _, b := range fn.Blocks {
-			for _, in := range b.Instrs {
-				idx++
-				if call, ok := in.(*ssa.Call); ok {
-					cal := call.Call.StaticCallee()
-					if cal != nil && strings.Contains(cal.String(), "bigEndian).PutUint32") && rootedAtSliceParam(call.Call.Args[1], y) && firstStore < 0 {
-						firstStore = idx
+		rd, wr, late := overlapOrder(p, fn, map[*ssa.Parameter]bool{fn.Params[0]: true}, map[*ssa.Parameter]bool{fn.Params[1]: true}, 0)
+		r.Check(rd && wr && late == "", "LOAD-BEFORE-STORE", "[portable] "+n, p.Pos(fn.Pos()), "no load from the source block can follow a store to the destination block"+ifs(late != "", ": "+late)+ifs(!rd || !wr, ": the function does not both read x and write y"))
+	}
+}
+
+// sliceRoot: the parameter a slice or element address is derived from
+func sliceRoot(v ssa.Value) *ssa.Parameter {
+	for i := 0; i < 12; i++ {
+		switch x := v.(type) {
+		case *ssa.Parameter:
+			return x
+		case *ssa.Slice:
+			v = x.X
+		case *ssa.ChangeType:
+			v = x.X
+		case *ssa.IndexAddr:
+			v = x.X
+		case *ssa.SliceToArrayPointer:
+			v = x.X
+		default:
+			return nil
+		}
+	}
+	return nil
+}
+
+// overlapOrder: does fn read xs, write ys, and can a read of xs follow a write of ys (late != "")?
+func overlapOrder(p *Prog, fn *ssa.Function, xs, ys map[*ssa.Parameter]bool, depth int) (reads, writes bool, late string) {
+	if depth > 6 || len(fn.Blocks) == 0 {
+		return true, true, "helper " + fn.Name() + " cannot be analysed"
+	}
+	type eff struct {
+		rd, wr bool
+		late   string
+	}
+	effect := func(in ssa.Instruction) eff {
+		var e eff
+		isX := func(v ssa.Value) bool { rt := sliceRoot(v); return rt != nil && xs[rt] }
+		isY := func(v ssa.Value) bool { rt := sliceRoot(v); return rt != nil && ys[rt] }
+		switch x := in.(type) {
+		case *ssa.UnOp:
+			if x.Op == token.MUL && isX(x.X) {
+				e.rd = true
+			}
+		case *ssa.Store:
+			if isY(x.Addr) {
+				e.wr = true
+			}
+		case *ssa.Call:
+			args := x.Call.Args
+			cal := x.Call.StaticCallee()
+			if cal == nil {
+				if bi, ok := x.Call.Value.(*ssa.Builtin); ok {
+					if bi.Name() == "copy" && len(args) == 2 {
+						e.rd, e.wr = isX(args[1]), isY(args[0])
 					}
-					if cal != nil && strings.Contains(cal.String(), "bigEndian).Uint32") && rootedAtSliceParam(call.Call.Args[1], x) && firstStore >= 0 {
-						late = "load from x at " + p.InstrPos(in) + " after the first store to y"
+					return e
+				}
+				for _, a := range args {
+					e.rd = e.rd || isX(a)
+					e.wr = e.wr || isY(a)
+				}
+				return e
+			}
+			switch {
+			case strings.Contains(cal.String(), "bigEndian).PutUint32") || strings.Contains(cal.String(), "littleEndian).PutUint32") || strings.Contains(cal.String(), "Endian).PutUint64"):
+				e.wr = isY(args[len(args)-2])
+			case strings.Contains(cal.String(), "Endian).Uint32") || strings.Contains(cal.String(), "Endian).Uint64"):
+				e.rd = isX(args[len(args)-1])
+			case isRepoFunc(cal) && len(cal.Blocks) > 0:
+				cx, cy := map[*ssa.Parameter]bool{}, map[*ssa.Parameter]bool{}
+				for i, a := range args {
+					if i < len(cal.Params) {
+						if isX(a) {
+							cx[cal.Params[i]] = true
+						}
+						if isY(a) {
+							cy[cal.Params[i]] = true
+						}
 					}
+				}
+				if len(cx) > 0 || len(cy) > 0 {
+					e.rd, e.wr, e.late = overlapOrder(p, cal, cx, cy, depth+1)
+				}
+			default:
+				for _, a := range args {
+					e.rd = e.rd || isX(a)
+					e.wr = e.wr || isY(a)
 				}
 			}
 		}
-		r.Check(firstStore > 0 && late == "", "LOAD-BEFORE-STORE", "[portable] "+n, p.Pos(fn.Pos()), "all loads from the source block precede the first store to the destination block"+ifs(late != "", ": "+late))
+		return e
 	}
+	written := map[*ssa.BasicBlock]bool{} // state at block entry
+	for changed := true; changed; {
+		changed = false
+		for _, b := range fn.Blocks {
+			st := written[b]
+			for _, in := range b.Instrs {
+				e := effect(in)
+				reads = reads || e.rd
+				writes = writes || e.wr
+				if e.late != "" && late == "" {
+					late = e.late
+				}
+				if st && e.rd && late == "" {
+					late = "load from the source at " + p.InstrPos(in) + " can follow a store to the destination"
+				}
+				st = st || e.wr
+			}
+			for _, s := range b.Succs {
+				if st && !written[s] {
+					written[s] = true
+					changed = true
+				}
+			}
+		}
+	}
+	return
 }
 
 func rootedAtSliceParam(v ssa.Value, prm *ssa.Parameter) bool {
